@@ -225,14 +225,40 @@ pub fn generate(rng: &mut Rng) -> ResProgram {
             decl.push_str("[[rssl::bindless]]\n");
             features.push(if array.is_some() { "bindless-array" } else { "bindless-single" }.into());
         }
+        // the type, or the whole array type, named by a typedef (the front end refuses register() on an array type that comes from a typedef)
+        let has_register = (group.is_some() && style == 1) || style == 2;
+        let via_typedef = rng.chance(1, 6) && !(array.is_some() && has_register);
+        if via_typedef {
+            let dims = match array {
+                Some(a) => format!("[{}]", a),
+                None => String::new(),
+            };
+            decl = format!("typedef {} TD_res{}{};\n{}", kind, i, dims, decl);
+            features.push(if array.is_some() { "resource-array-typedef" } else { "resource-typedef" }.into());
+        }
+        if let (Some(g), 0, true) = (group, style, rng.chance(1, 4)) {
+            // a language binding index next to the explicit group, on either side of it
+            if rng.chance(1, 2) {
+                decl.push_str(&format!("[[vk::binding({})]]\n", 20 + i));
+            } else {
+                decl = decl.replace(&format!("[[rssl::bind_group({})]]\n", g), &format!("[[vk::binding({})]]\n[[rssl::bind_group({})]]\n", 20 + i, g));
+            }
+            features.push("bind_group-and-vk-binding".into());
+        }
         if rng.chance(1, 3) {
             decl.push_str("const ");
         }
-        decl.push_str(kind);
+        if via_typedef {
+            decl.push_str(&format!("TD_res{}", i));
+        } else {
+            decl.push_str(kind);
+        }
         decl.push(' ');
         decl.push_str(&name);
         if let Some(a) = array {
-            decl.push_str(&format!("[{}]", a));
+            if !via_typedef {
+                decl.push_str(&format!("[{}]", a));
+            }
             features.push("resource-array".into());
         }
         match (group, style) {
